@@ -27,7 +27,7 @@ func NewAESCFB(key, iv []byte) BlockCryptor {
 	return &aesCFBCrypt{
 		block: block,
 		key:   key,
-		iv:    iv,
+		iv:    append(make([]byte, 0, len(iv)), iv...), // private copy, capacity = length
 	}
 }
 
